@@ -125,7 +125,12 @@ class DFXPReader(BaseReader):
         for div in dfxp_document.find_all('div'):
             lang = div.attrs.get('xml:lang', default_language)
 
-            caption_dict[lang] = self._convert_div_to_caption_list(div)
+            captions = self._convert_div_to_caption_list(div)
+            if lang in caption_dict:
+                # A further division of a language that was seen already
+                caption_dict[lang].extend(captions)
+            else:
+                caption_dict[lang] = captions
 
         for style in dfxp_document.find_all('style'):
             id_ = style.attrs.get('xml:id') or style.attrs.get('id')
@@ -151,7 +156,9 @@ class DFXPReader(BaseReader):
     def _convert_div_to_caption_list(self, div):
         return CaptionList(
             [self._convert_p_tag_to_caption(p_tag)
-             for p_tag in div.find_all('p') if p_tag.get_text().strip()],
+             for p_tag in div.find_all('p')
+             # (the paragraphs of a nested div are read with that div)
+             if p_tag.find_parent('div') is div and p_tag.get_text().strip()],
             div.layout_info
         )
 
